@@ -199,8 +199,25 @@ var c13IDs = func() []int {
 	return ids
 }()
 
+var c13IDsThorough = func() []int {
+	ids := append([]int{}, c13IDs...)
+	have := map[int]bool{}
+	for _, v := range ids {
+		have[v] = true
+	}
+	for v := 0; v <= 200; v++ {
+		if !have[v] {
+			ids = append(ids, v)
+		}
+	}
+	return ids
+}()
+
 func c13IDSweep(c *explore.C, tier universe.Tier) {
 	ids := c13IDs
+	if tier == universe.Thorough {
+		ids = c13IDsThorough
+	}
 	ai := c.Choose(len(ids), explore.Data, "first-id")
 	bi := c.Choose(len(ids), explore.Data, "second-id")
 	layout := c.Choose(4, explore.Data, "layout") // 0: adjacent first, 1: adjacent last, 2: far apart, 3: reversed declaration
